@@ -18,7 +18,7 @@ RULE = (
     "BFS over configuration histories of REAL PersistenceImager objects: initial states = all "
     "constructor products birth_range x pers_range x pixel_size (7x7x6; ranges include extents just above / below a multiple of the pixel) + defaults; operations = "
     "birth_range=r (7), pers_range=r (7), pixel_size=s (6), fit(D) for 3 data sets x skew on/off (6), fit_transform(D) for 2 data sets x skew on/off (4); "
-    "depth 2 (quick) / 4 (thorough); states de-duplicated on the public geometry "
+    "depth 2 (quick) / 4 (thorough), plus the FULL tree of histories (no de-duplication) to depth 4 (5) over a reduced 9-operation alphabet from 3 states; states de-duplicated on the public geometry "
     "(ranges, width, height, resolution, pixel_size) with differential continuation of merged states. "
     "Every state: resolution*pixel = width/height = range extents, transform shape = resolution, "
     "black-box pixel probe (narrow kernel at predicted pixel centres). Every transition: covered "
@@ -266,7 +266,19 @@ class _M:
     run_case = staticmethod(run_case)
 
 
+DEEP_INITS = [{}, {"birth_range": [0, 1], "pers_range": [-0.5, 0.7], "pixel_size": 0.3}, {"birth_range": [0.1, 0.8], "pers_range": [0, 0.3], "pixel_size": 0.1}]
+DEEP_OPS = [["birth_range", [0, 1.00001]], ["pers_range", [-0.5, 0.7]], ["pixel_size", 0.3], ["pixel_size", 1.0 / 3.0], ["pixel_size", 0.7],
+            ["fit", "c", True], ["fit", "b", False], ["fit_transform", "a", True], ["birth_range", [0.1, 0.8]]]
+
+
 def run_shard(ctx):
     mine = [x for i, x in enumerate(inits()) if i % ctx.nshards == ctx.shard]
     depth = 2 if ctx.tier == "quick" else 4
     history.bfs(ctx, _M, mine, OPS, depth, run_history)
+    # long histories: every sequence of 4 (thorough 5) operations over a reduced alphabet, without state
+    # de-duplication (hidden state such as call counters cannot hide behind a repeated public state)
+    deep = 4 if ctx.tier == "quick" else 5
+    jobs = [(i, f) for i in range(len(DEEP_INITS)) for f in range(len(DEEP_OPS))]
+    for jx, (i, f) in enumerate(jobs):
+        if jx % ctx.nshards == ctx.shard:
+            history.bfs(ctx, _M, [DEEP_INITS[i]], DEEP_OPS, deep - 1, run_history, prefix=[DEEP_OPS[f]], diff_continuation=False, dedup=False)
